@@ -69,7 +69,12 @@ class SHACLRule(object):
             raise RuleLoadError(
                 "A SHACL Rule must be a numeric literal.", "https://www.w3.org/TR/shacl-af/#rules-order"
             )
-        return Decimal(order_node.value)
+        try:
+            return Decimal(order_node.value)
+        except (ArithmeticError, TypeError, ValueError):
+            raise RuleLoadError(
+                "The sh:order of a SHACL Rule must be a numeric literal.", "https://www.w3.org/TR/shacl-af/#rules-order"
+            )
 
     def get_conditions(self):
         shapes_graph_g = self.shape.sg.graph
